@@ -271,6 +271,21 @@ func genC18(e *emitter, tier string, seed int64) {
 	}
 	emitV2(e, "n = 0\nfor i = 9223372036854775800; i < 9223372036854775803; i = i + 1 {\n  n = n + 1\n}\np(n)\n", 3000, "int-order")
 	emitV2(e, "n = 0\nfor i = 9007199254740992; i <= 9007199254740993; i = i + 1 {\n  n = n + 1\n}\np(n)\n", 3000, "int-order")
+	// index paths: present and missing keys, at the last and at an inner position, on maps inside lists and
+	// lists inside maps, wrongly typed and out-of-range subscripts
+	for _, path := range []string{`m["z"]`, `m["z"]["b"]`, `m["a"]["z"]`, `m["a"]["z"]["q"]`, `m["a"]["b"]`, `m["a"]["b"][0]`, `m["l"][0]`, `m["l"][5]`, `m["l"][0]["q"]`, `m["l"][0]["x"]`, `m["l"][0]["x"][0]`,
+		`m["l"][0]["q"][1]`, `m["l"][-1]["q"][0]`, `m["l"]["0"]`, `m[0]`, `m["a"][nil]`, `m["n"]`, `m["n"]["x"]`, `l[0]["q"][0]`, `l[1]["q"]`, `l[0][0]`, `l["0"]`, `l[0]["z"]["z"]`, `s[0]`, `n[0]`} {
+		prelude := "m = {\"a\": {\"b\": 1}, \"l\": [{\"q\": [1, 2]}], \"n\": nil}\nl = [{\"q\": [3]}]\ns = \"str\"\nn = 5\n"
+		emitV2(e, prelude+"p("+path+")\np(\"end\")\n", 3000, "index-paths")
+		emitV2(e, prelude+"x = "+path+"\nif x == nil {\n  p(\"nil\")\n}\np(x)\n", 3000, "index-paths")
+		emitV2(e, prelude+path+" = 9\np(m, l)\n", 3000, "index-paths")
+	}
+	// values that contain themselves through every v2 consumer
+	for _, mk := range []string{"a = [1]\na[0] = a\n", "a = {\"k\": 1}\na[\"k\"] = a\n", "b = [1, 2]\na = {\"l\": b}\nb[1] = a\n"} {
+		for _, u := range []string{"p(a)", "p(a == a)", "p(a in [a])", "x = a + 1", "for x in a {\n  p(1)\n}", "p(a[0])", "c = a[0:1]\np(c)", "if a {\n  p(1)\n}", "p(-a)", "p(!a)", "p(pr(a))", "x = [a, a]\np(x == x)", "p(a < a)", "a += 1"} {
+			emitV2(e, mk+u+"\np(\"end\")\n", 3000, "self-containing")
+		}
+	}
 	// multi-assignment: the whole right side is evaluated before assigning
 	for _, src := range []string{
 		"a = 1\nb = 2\na, b = b, a\np(a, b)\n", "a, b = multi(1, 2)\np(a, b)\n", "a, b = 1\n", "a = multi(1, 2)\n", "a, b, c = multi(1, 2), 3\np(a, b, c)\n",
